@@ -152,7 +152,7 @@ func (h *Handler) handleRequest(host *packet.Host, p packet.DHCP4, options packe
 			!bytes.Equal(lease.Addr.MAC, p.CHAddr()) || // invalid hardware
 			(lease.State == StateDiscover && (!bytes.Equal(lease.XID, p.XId()) || lease.IPOffer != reqIP)) || // invalid discover request
 			(lease.State == StateDiscover && h.allocatedToOther(lease, lease.IPOffer)) || // offer was acknowledged to another client meanwhile
-			(lease.State == StateAllocated && lease.Addr.IP != reqIP) { // invalid request - iphone send duplicate select packets - let it pass
+			(lease.State == StateAllocated && (lease.Addr.IP != reqIP || lease.DHCPExpiry.Before(time.Now()))) { // invalid or expired - iphone send duplicate select packets - let it pass
 			Logger.Msg("request NACK - select invalid parameters").ByteArray("xid", p.XId()).ByteArray("lxid", lease.XID).IP("leaseIP", lease.Addr.IP).Write()
 			return nakPacket(p, subnet.DHCPServer.AsSlice(), clientID)
 		}
